@@ -12,7 +12,13 @@ func (s *Entry) printOut(lvl Level, msg []byte) {
 			x.SetLevel(lvl)
 		}
 
-		n, err := w.Write(msg)
+		var n int
+		var err error
+		if ws, ok := w.(LWs); ok {
+			n, err = ws.WriteLevel(lvl, msg)
+		} else {
+			n, err = w.Write(msg)
+		}
 		collectWrittenBytes(n)
 
 		if err != nil && lvl != WarnLevel { // don't warn on warning to avoid infinite calls
